@@ -181,3 +181,27 @@ func TruncatingCopies(fn *ssa.Function) []*ssa.Call {
 	}
 	return out
 }
+
+// MadeSlice recognises make([]T, n[, cap]) in both SSA shapes (MakeSlice, or a
+// slice over a fresh fixed-size array when the sizes are constants) and returns
+// the length when constant.
+func MadeSlice(v ssa.Value) (length int64, constLen bool, ok bool) {
+	v = Strip(v)
+	switch x := v.(type) {
+	case *ssa.MakeSlice:
+		n, isK := ConstInt(x.Len)
+		return n, isK, true
+	case *ssa.Slice:
+		a, isA := Strip(x.X).(*ssa.Alloc)
+		if !isA || a.Comment != "makeslice" {
+			return 0, false, false
+		}
+		if x.High == nil {
+			n, okN := LenOf(a)
+			return n, okN, true
+		}
+		n, isK := ConstInt(x.High)
+		return n, isK, true
+	}
+	return 0, false, false
+}
